@@ -27,8 +27,10 @@ def pushAll (ds : List Bytes) : Bytes := (ds.map pushData).flatten
 /-- OP_1 … OP_16 -/
 def opN (n : Nat) : UInt8 := UInt8.ofNat (0x50 + n)
 
-/-- a small positive number as a script writes it: OP_1 … OP_16, beyond that a one-byte push -/
-def numPush (n : Nat) : Bytes := if n ≤ 16 then [opN n] else pushData [UInt8.ofNat n]
+/-- a small number as `CScript([n])` writes it: OP_0 (the empty push) for 0, OP_1 … OP_16, beyond
+    that a one-byte push (17 … 127) -/
+def numPush (n : Nat) : Bytes :=
+  if n = 0 then [0x00] else if n ≤ 16 then [opN n] else pushData [UInt8.ofNat n]
 
 /-- pay-to-pubkey: `<key> OP_CHECKSIG`; spent by `<sig>` -/
 def p2pkScript (key : Bytes) : Bytes := pushData key ++ [0xac]
